@@ -65,3 +65,22 @@ func TestDbgFeatures(t *testing.T) {
 	}
 	fmt.Println(caseFeatures(&c).List())
 }
+
+// TestDbgAvoidLeaks prints generated operations that carry a feature class the generator was told to avoid (VERIF_DUMP=<class>).
+func TestDbgAvoidLeaks(t *testing.T) {
+	cls := os.Getenv("VERIF_DUMP")
+	if cls == "" {
+		t.Skip()
+	}
+	n := 0
+	rapid.Check(t, func(t *rapid.T) {
+		c, _ := genExecCase(t, ev.Get("DBG"), ast.Query)
+		if c == nil || n >= 6 {
+			return
+		}
+		if caseFeatures(c)[cls] {
+			n++
+			fmt.Println("LEAK:", c.Op.Query)
+		}
+	})
+}
